@@ -78,7 +78,12 @@ class Keccak(object):
             assert self.r
             r = self.r
         else:
+            r0 = self.r
             self.setrate(r)
+            try:
+                return self.__call__(M,bitlen)
+            finally:
+                self.setrate(r0)
 
         #Absorbing phase
         for Pi in self.iterblocks(M,bitlen):
